@@ -62,15 +62,15 @@ Theorem C10_lex_scala :
 Proof. exact Proofs.C10.lex_scala. Qed.
 Print Assumptions C10_lex_scala.
 
-(* Go, partial: configurations WITHOUT uppercase_acronyms. (With acronyms, names and printed types go through
-   the textual replace_range of go.rs:579; that step is not followed through the decision layer. The layout
-   theorem C10_go_layout_balanced below covers whatever declarations come out of it.) *)
-Theorem C10_lex_go_partial :
+(* Go: the same, for alphanumeric uppercase_acronyms (names and printed types go through the textual
+   match_indices / replace_range conversion of go.rs:579, which then only replaces letters and digits by letters and
+   digits) *)
+Theorem C10_lex_go :
   forall (uc : unicode) (cfg : go_config) (pd : parsed) (text : str),
-    unicode_ok uc -> Proofs.C10_GOFile.c10_go_cfg_ok cfg = true -> go_uppercase_acronyms cfg = [] -> dom_C10 CGO pd = true ->
+    unicode_ok uc -> Proofs.C10_GOFile.c10_go_cfg_ok cfg = true -> dom_C10 CGO pd = true ->
     go_generate uc cfg pd = Ok text -> good_C10_lex CGO text = true.
-Proof. exact Proofs.C10.lex_go_partial. Qed.
-Print Assumptions C10_lex_go_partial.
+Proof. exact Proofs.C10.lex_go. Qed.
+Print Assumptions C10_lex_go.
 
 (* Swift: every program of the domain (the Swift generic-constraint strings neutral tokens, every other decorator
    balanced on its own), every admissible configuration (identifier-shaped prefix, balanced default decorators and
